@@ -43,7 +43,7 @@ def shapes(level):
         q.append({"h": None, "x": [[K[kind]]] + [list(l) for l in lists]})
     big = level == 'thorough'
     add('SR', [0,1,2] + ([31] if big else []), [0,4] + ([8] if big else []))
-    add('RR', [0,1,2] + ([31] if big else []), [0])
+    add('RR', [0,1,2] + ([31] if big else []), [0,4] + ([8] if big else []))
     add('SDES', [0,1,2], [0,1,2], [0,1,3,4] + ([255] if big else []))
     if big: add('SDES', [31], [1], [1])
     add('BYE', [0,1,2] + ([31] if big else []), [0,1,2,3,4] + ([255] if big else []))
@@ -70,8 +70,20 @@ def codec(h, level):
     for c in shapes(level):
         d = dict(c); d['h'] = h; out.append(d)
     return out
+CODEC_B = 'every packet type with all field values, texts and payload bytes symbolic, for the shapes: SR reports {0,1,2} x extension octets {0,4}; RR reports {0,1,2}; SDES chunks {0,1,2} x items {0,1,2} x text octets {0,1,3,4}; BYE sources {0,1,2} x reason octets {0..4}; APP data octets {0..5,8}; NACK pairs {1,2}; RRR; PLI; SLI entries {0,1,2}; FIR entries {1,2}; REMB SSRCs {0,1,2} x exponents {1,46,63} (normal mantissa, low bits symbolic) and exponent 0 with mantissa MSB at {0,1,9,17}; CCFB blocks {0,1,2} x metric blocks {0..4} with symbolic begin sequence; TWCC: 9 chunking skeletons (run-length, 1-bit and 2-bit vectors, exact fit, vector overshoot) with symbolic header fields and delta values; XR: every single block of the 7 RFC 3611 kinds and 2 unknown-block shapes, the empty report, and 5 two-block sequences; Raw {4,8,12} octets'
+CODEC_BT = 'every packet type with all field values, texts and payload bytes symbolic, for the shapes: SR reports {0,1,2} x extension octets {0,4}; RR reports {0,1,2}; SDES chunks {0,1,2} x items {0,1,2} x text octets {0,1,3,4}; BYE sources {0,1,2} x reason octets {0..4}; APP data octets {0..5,8}; NACK pairs {1,2}; RRR; PLI; SLI entries {0,1,2}; FIR entries {1,2}; REMB SSRCs {0,1,2} x exponents {1,46,63} (normal mantissa, low bits symbolic) and exponent 0 with mantissa MSB at {0,1,9,17}; CCFB blocks {0,1,2} x metric blocks {0..4} with symbolic begin sequence; TWCC: 9 chunking skeletons (run-length, 1-bit and 2-bit vectors, exact fit, vector overshoot) with symbolic header fields and delta values; XR: every single block of the 7 RFC 3611 kinds and 2 unknown-block shapes, the empty report, and 5 two-block sequences; Raw {4,8,12} octets; thorough adds 31 reports/chunks/sources, 255-octet texts, 253 NACK pairs, 255 REMB SSRCs, more REMB exponents and all 81 ordered pairs of XR block kinds'
+def c05extra():
+    # length-focused shapes: every residue mod 4 of the variable-length parts
+    return [{"h":"VpC05","x":[[K['RR']],[0,1],rng(1,9)]},{"h":"VpC05","x":[[K['SR']],[0,1],rng(1,9)]},
+            {"h":"VpC05","x":[[K['SDES']],[1],[1,2],rng(5,9)]},{"h":"VpC05","x":[[K['BYE']],[1],rng(5,9)]},
+            {"h":"VpC05","x":[[K['APP']],[6,7,9]]},{"h":"VpC05","x":[[K['CCFB']],[1],[5]]},{"h":"VpC05","x":[[K['XR']],[10,11,12,13,14,15]]}]
 for pid, h in [('C02','VpC02'),('C03','VpC03'),('C05','VpC05'),('C10','VpC10')]:
-    R[pid] = {"quick": codec(h,'quick'), "thorough": codec(h,'thorough'), "bounds": "wip", "require_reach": ["reach:end"], "opts": {"unwind": 300}}
+    R[pid] = {"quick": codec(h,'quick'), "thorough": codec(h,'thorough'), "bounds": CODEC_B, "bounds_thorough": CODEC_BT, "require_reach": ["reach:end"], "opts": {"unwind": 300},
+        "outside_claim": ["shapes (list lengths, text lengths, block sequences) not listed in the bounds", "RR/SR profile extensions that are not a multiple of four octets (see DESIGN: outside the well-formed domain D of C02/C03)"]}
+R['C05']['quick'] += c05extra()
+R['C05']['thorough'] += c05extra()
+R['C05']['bounds'] += "; plus length-focused shapes: RR and SR profile extensions of 1..9 octets, SDES texts and BYE reasons of 5..9 octets, APP data of 6,7,9 octets, 5 CCFB metric blocks, XR blocks with odd RLE chunk counts (1,3), 1 receipt time, 0 and 2 DLRR sub-blocks, 8-octet unknown block"
+R['C05']['bounds_thorough'] += "; plus the length-focused shapes of the quick tier"
 
 # ---- C07
 minimal = {1:[1,1,0],2:[2,1,0],3:[3,1,1,2],4:[4,1,0],5:[5,4],6:[6,1],7:[7],8:[8,1],9:[9,1,2],10:[10],11:[11,1],12:[12,1,46,17],13:[13,1],14:[14,4],15:[15,8]}
@@ -85,7 +97,10 @@ def dispatch(lens):
 R['C07'] = {
  "quick": dispatch([4,8,12,16,20,24]) + [{"h":"VpC07_Foreign","a":foreign}],
  "thorough": dispatch([4,8,12,16,20,24,28,32]) + [{"h":"VpC07_Foreign","a":foreign}],
- "bounds": "wip", "require_reach": ["reach:end","reach:row-raw"], "opts": {"unwind": 100},
+ "bounds": "dispatch: one well-framed frame of 4..24 octets (4..20 for PT 202 and 205) with all 32 count/FMT values and all body bytes symbolic, one query per packet type class {not 200..207, 200, ..., 207}; foreign rejection: all 14x14 ordered pairs of distinct decoder/packet types plus unknown-type raw packets, the foreign packet built from symbolic field values and encoded by the RFC reference encoder",
+ "bounds_thorough": "as quick with frames up to 32 octets",
+ "require_reach": ["reach:end","reach:row-raw"], "opts": {"unwind": 100},
+ "outside_claim": ["frames longer than the bound", "TWCC frames with packet status count above 8"],
 }
 
 R['C14'] = {
@@ -100,11 +115,103 @@ R['C14']['thorough'] = [dict(c) for c in R['C14']['quick']]
 R['C14']['thorough'][2] = {"h":"VpC14_Negative","x":[rng(0,254)]}
 R['C14']['thorough'][4] = {"h":"VpC14_Count","x":[[0,1,2,3,100,254,255]]}
 
+R['C08'] = {
+ "quick": [{"h":"VpC08_TotalLost","x":[[0,1]]},
+  {"h":"VpC08_Counts","x":[[0,1,2,3],[30,31,32]]},{"h":"VpC08_Counts","x":[[4],[254,255,256]]},{"h":"VpC08_Counts","x":[[5,6],[252,253,254]]},
+  {"h":"VpC08_Counts","x":[[7],[16383,16384,16385]]},
+  {"h":"VpC08_Texts","x":[[0,1],[0,1,254,255,256]]},{"h":"VpC08_Texts","x":[[2],[0,3,4,5]]},
+  {"h":"VpC08_SmallFields"},{"h":"VpC08_TWCCDelta","x":[[1,2]],"solver":"cvc5-int"},{"h":"VpC08_REMBSign","x":[[0,1,127,200,254]]}],
+ "bounds": "value limits over the whole domain of the field (TotalLost: all uint32 through SR and RR; APP subtype, header count, SDES item type: all uint8; TWCC receive delta: all int64 for both size classes, with a following delta that must keep its position; REMB sign: all negative floats of 5 exponent fields); length limits at limit-1, limit, limit+1 (31 reports/chunks/sources, 255 REMB SSRCs, 253 NACK/SLI entries, 16384 CCFB metric blocks, 255-octet text/reason, 4-octet APP name) with symbolic edge contents",
+ "require_reach": ["reach:end"], "opts": {"unwind": 40000, "alloc": 70000},
+ "outside_claim": ["fields the encoders mask without error that the property does not enumerate (SLI First/Number/Picture, CCFB offset/ECN, TWCC reference time and run length, XR T/ToH)"],
+}
+R['C08']['thorough'] = R['C08']['quick']
+
+R['C11'] = {
+ "quick": [{"h":"VpC11_Grammar","x":[[0,1,2,3,4]]},{"h":"VpC11_MemberFails"},
+           {"h":"VpC11_Unmarshal","a":[[8,1],[12,2],[16,1,1],[20,1,2],[20,1,1,0],[16,0,2],[24,1,3],[24,1,1,1]]}],
+ "bounds": "grammar: every sequence of 0..4 packets whose kinds are symbolic over {SR, RR, SDES, BYE, PLI, APP, XR, Raw}, SDES members with 0..2 chunks x 0..2 items with symbolic item types and text octets (one query per length covers all 8^n kind sequences); member failure: all uint32 TotalLost; Unmarshal agreement: datagrams of 8..24 octets under 8 frame compositions, all bytes symbolic",
+ "bounds_thorough": "as quick with sequences of length 0..6",
+ "require_reach": ["reach:end"], "opts": {"unwind": 100},
+ "outside_claim": ["sequences longer than the bound", "SDES members with more than 2 chunks or items"],
+}
+R['C11']['thorough'] = [{"h":"VpC11_Grammar","x":[[0,1,2,3,4,5,6]]},{"h":"VpC11_MemberFails"},R['C11']['quick'][2]]
+
+def compositions(words):
+    # all ways to split `words` 32-bit words into leading frames (each >= 1 word) plus an optional unframed tail
+    out = []
+    def rec(rem, acc):
+        out.append(list(acc))          # tail of `rem` words left symbolic
+        for w in range(1, rem + 1):
+            rec(rem - w, acc + [w - 1])
+    rec(words, [])
+    return out
+def framing(maxlen):
+    cases = []
+    for L in range(0, maxlen + 1):
+        if L % 4 == 0:
+            for c in compositions(L // 4):
+                cases.append([L] + c)
+        else:
+            for c in compositions(L // 4):
+                if sum(x + 1 for x in c) * 4 <= L: cases.append([L] + c)
+    # dedupe
+    seen = []; 
+    for c in cases:
+        if c not in seen: seen.append(c)
+    return seen
+pts = [0,200,201,202,203,204,205,206,207]
+R['C06'] = {
+ "quick": [{"h":"VpC06_Framing","a":framing(16)},{"h":"VpC06_Empty"},
+           {"h":"VpC06_Local","x":[[4,8,12],[4,8,12],[0],[0]]},
+           {"h":"VpC06_Local","x":[[16],[8],pts,[0]]},{"h":"VpC06_Local","x":[[8],[16],[0],pts]}],
+ "thorough": [{"h":"VpC06_Framing","a":framing(24)},{"h":"VpC06_Empty"},
+           {"h":"VpC06_Local","x":[[4,8,12],[4,8,12],[0],[0]]},
+           {"h":"VpC06_Local","x":[[16,20],[8,12],pts,[0]]},{"h":"VpC06_Local","x":[[8,12],[16,20],[0],pts]}],
+ "bounds": "framing: every datagram length 0..16 under every composition into leading frames plus an arbitrary symbolic tail (76 shapes; all bytes other than the listed length fields symbolic, including version bits and packet types) against an independent frame walker; locality: two well-framed frames of {4,8,12}x{4,8,12} octets with symbolic packet types and contents, and 16-octet frames of each packet-type class next to an 8-octet frame, compared packet-by-packet with the separately decoded frames; empty and nil datagrams",
+ "bounds_thorough": "framing up to 24 octets (316 shapes); locality with 16- and 20-octet frames of every packet-type class",
+ "require_reach": ["reach:end"], "opts": {"unwind": 100},
+ "outside_claim": ["datagrams longer than the bound", "TWCC frames with packet status count above 8"],
+}
+
+def c09(level):
+    big = level == 'thorough'
+    L = [4,8,12,16,20,24,28] + ([32,36] if big else [])
+    up = lambda m: [l for l in L if l <= m]
+    q = [{"h":"VpC09","x":[L,[0,200,201,204],[-1]]},
+         {"h":"VpC09","x":[up(20 if big else 16),[202,203,206],[-1]]},
+         {"h":"VpC09","x":[up(16 if big else 12),[207],[-1]]},
+         {"h":"VpC09","x":[L,[205],[1,5,0]]},
+         {"h":"VpC09","x":[up(24 if big else 20),[205],[11]]},
+         {"h":"VpC09","x":[up(20),[205],[15]]}]
+    return q
+R['C09'] = {"quick": c09('quick'), "thorough": c09('thorough'),
+ "bounds": "one well-framed frame, all bytes other than version, packet type and length symbolic: 4..28 octets for unknown types, SR, RR, APP and RTPFB FMT 1/5/other; 4..16 for SDES, BYE and PSFB (every FMT); 4..12 for XR; 4..20 for CCFB and TWCC (status count <= 8); decode, re-encode (panic freedom), re-decode on every possible output length and field-wise comparison",
+ "bounds_thorough": "as quick with 36 / 20 / 16 / 24 octets respectively",
+ "require_reach": ["reach:end","reach:accepted"], "opts": {"unwind": 100},
+ "assumptions": ["TransportLayerCC is compared only when its decoded header is consistent with its content, as the property states"],
+ "outside_claim": ["datagrams with several frames (locality is C06)", "frames longer than the bound"]}
+
+cheap = [1,2,4,5,6,7,10,11,12,13,15,17,18,20,21,22,23]
+def c01(level):
+    big = level == 'thorough'
+    q = [{"h":"VpC01_Decode","x":[cheap, rng(0, 40 if big else 32)]},
+         {"h":"VpC01_Decode","x":[[3,19], rng(0, 24 if big else 18)]},
+         {"h":"VpC01_Decode","x":[[14], rng(0, 28 if big else 22)]},
+         {"h":"VpC01_Decode","x":[[9], rng(0, 36 if big else 30)]},
+         {"h":"VpC01_Decode","x":[[8], rng(0, 22)]}]
+    fr = framing(20 if big else 12)
+    q.append({"h":"VpC01_Datagram","a":[[0] + f for f in fr] + [[16] + f for f in fr]})
+    return q
 R['C01'] = {
- "quick": [{"h":"VpC01_Decode","x":[rng(1,23),rng(0,20)]}],
- "bounds": "wip",
+ "quick": c01('quick'), "thorough": c01('thorough'),
+ "bounds": "every buffer length 0..32 for the 17 fixed-layout decoders and sub-decoders, 0..18 for SourceDescription and SourceDescriptionChunk, 0..22 for ExtendedReport, 0..30 for CCFeedbackReport, 0..22 for TransportLayerCC (packet status count <= 8); datagram entry points (rtcp.Unmarshal, CompoundPacket.Unmarshal): every length 0..12 under every composition into frames plus arbitrary tail; all byte contents symbolic; every loop unwound under an unwinding assertion (limit 80); allocation counted against 4 MiB + 64 bytes per input byte",
+ "bounds_thorough": "as quick with lengths 0..40 (fixed-layout), 0..24 (SDES), 0..28 (XR), 0..36 (CCFB), datagrams 0..20",
  "opts": {"unwind": 80},
  "require_reach": ["reach:end"],
+ "assumptions": ["TransportLayerCC: packet status count <= 8 (bounded part); larger counts and the status-loop counter wrap are outside this check"],
+ "outside_claim": ["inputs longer than the stated lengths", "TransportLayerCC packet status counts above 8, including the uint16 wrap of the processed-packet counter near 65535 (found by reading, reproduced by a hand-built 1108-byte datagram: 3.9M allocations / 224 MiB; recorded in DESIGN.md, not decidable by bounded unrolling)", "Go runtime allocator slack, stack depth"],
 }
+
 json.dump(R, open('/verif/harness/registry.json', 'w'), indent=1)
 print("registry:", ", ".join(f"{k}" for k in R))
